@@ -408,14 +408,14 @@ theorem inv_move (s s' : Store) (src : Bytes) (l : Link) (dst : Bytes) (fl : Lis
   split at h
   · cases h
   · split at h
-    · cases h; exact hi
     · cases h
-      exact inv_mapLinks _ src (fun ls => ls.filter (fun x => x.msg ≠ l.msg)) (shrinks_filter _) (inv_add s dst l.msg fl hi)
+    · cases h
+      exact inv_mapLinks _ src (fun ls => ls.filter (fun x => x.uid ≠ l.uid)) (shrinks_filter _) (inv_add s dst l.msg fl hi)
 
-theorem inv_storeOne (s : Store) (box : Bytes) (l : Link) (rank : Nat) (new : List Bytes) (mode : Flags.Mode) (byUid : Bool)
-    (hi : Inv s) : Inv (s.storeOne box l rank new mode byUid).1 := by
+theorem inv_storeOne (s : Store) (box : Bytes) (l : Link) (rank : Nat) (new : List Bytes) (mode : Flags.Mode)
+    (hi : Inv s) : Inv (s.storeOne box l rank new mode).1 := by
   have hset : ∀ s0 : Store, Inv s0 → Inv (s0.modify box (fun b => { b with links := b.links.map (fun x =>
-        if (if byUid then x.uid = l.uid else x.msg = l.msg) then { x with flags := Flags.newFlags l.flags new mode } else x) })) :=
+        if x.uid = l.uid then { x with flags := Flags.newFlags l.flags new mode } else x) })) :=
     fun s0 h0 => inv_mapLinks s0 box _ (shrinks_mapIf _ _) h0
   unfold Store.storeOne
   simp only []
@@ -437,7 +437,7 @@ theorem inv_storeSeq (s : Store) (box : Bytes) (new : List Bytes) (mode : Flags.
     unfold Store.storeSeq
     split
     · exact ih s hi
-    · exact ih _ (inv_storeOne s box _ r new mode false hi)
+    · exact ih _ (inv_storeOne s box _ r new mode hi)
 
 theorem inv_storeUid (s : Store) (box : Bytes) (new : List Bytes) (mode : Flags.Mode) (uids : List Nat) (hi : Inv s) :
     Inv (s.storeUid box new mode uids).1 := by
@@ -447,7 +447,7 @@ theorem inv_storeUid (s : Store) (box : Bytes) (new : List Bytes) (mode : Flags.
     unfold Store.storeUid
     split
     · exact ih s hi
-    · exact ih _ (inv_storeOne s box _ _ new mode true hi)
+    · exact ih _ (inv_storeOne s box _ _ new mode hi)
 
 theorem inv_expungeBy (s : Store) (box : Bytes) (doomed : Link → Bool) (hi : Inv s) : Inv (s.expungeBy box doomed).1 := by
   unfold Store.expungeBy
